@@ -20,7 +20,7 @@ func init() {
 			"(atomic-transfer) the transfer's writes share one store transaction — violated by design, recorded known finding; " +
 			"(single-write) each driver's AddNodeBalance writes exactly one of {account balance, trial balance} on success paths and none on failure paths, value = stored + credit; " +
 			"(migrate) each driver's AddAccountNode adds the trial credit read in the same region to the account balance and deletes the trial entry on the same paths; " +
-			"(stats-cover) each driver's Stats counts both balance spaces.",
+			"(stats-cover) each driver's Stats counts both balance spaces. Round 2: the credit to migrate is read from a key in the trial space only.",
 		NotDecided: []string{"not decided: arithmetic value of the sums; optimistic-transaction conflicts at run time (only their structural consequence); wallet-sharing effects"},
 	}
 }
